@@ -39,7 +39,7 @@ Definition is_pred_op (o : cv_op) : bool :=
 (* program counters at which the caller of a public wait still holds U *)
 Definition needs_u (p : cv_pc) (o : cv_op) : bool :=
   match p with
-  | CPredTest | CStopReg | CStopChk | CUnlockU => true
+  | CPredTest | CPredRet | CStopReg | CStopChk | CUnlockU => true
   | CLockI => match o with CDWait => false | _ => true end
   | NLockI _ _ il | NPop _ _ il | NRes _ _ il => il
   | _ => false
